@@ -338,3 +338,94 @@ Proof.
   intros Hw H. inversion H as [|ts0 s1 s2 Hs1 Hs2| | |]; subst. rewrite app_assoc. apply M_star; [|assumption].
   unfold no_sep in *. apply Forall_app. split; assumption.
 Qed.
+
+(** ** the star loop finds the leftmost acceptable offset *)
+Section StarLoop.
+Variables (chunk : bytes) (items : list term).
+Hypothesis Hmc : forall x, matchChunk chunk x = Ok (PM items x).
+
+Lemma starLoop_spec last : forall name, no_sep name ->
+  match starLoop chunk last name with
+  | Ok (Some t) =>
+      exists v x, name = v ++ x /\ v <> [] /\ PM items x = Some t /\ (last = true -> t = [])
+        /\ (forall v' x' t', name = v' ++ x' -> v' <> [] -> (length v' < length v)%nat ->
+                             PM items x' = Some t' -> last = true /\ t' <> [])
+  | Ok None => forall v x t', name = v ++ x -> v <> [] -> PM items x = Some t' -> last = true /\ t' <> []
+  | _ => False
+  end.
+Proof.
+  induction name as [|c name IH]; intros Hs.
+  - cbn. intros v x t' E Hv. destruct v; [congruence|discriminate].
+  - inversion Hs as [|? ? Hc Hs']; subst. specialize (IH Hs'). cbn [starLoop].
+    replace (c =? Separator) with false by lia. rewrite Hmc.
+    assert (Hrec : (forall t', PM items name = Some t' -> last = true /\ t' <> []) ->
+      match starLoop chunk last name with
+      | Ok (Some t) =>
+          exists v x, c :: name = v ++ x /\ v <> [] /\ PM items x = Some t /\ (last = true -> t = [])
+            /\ (forall v' x' t', c :: name = v' ++ x' -> v' <> [] -> (length v' < length v)%nat ->
+                                 PM items x' = Some t' -> last = true /\ t' <> [])
+      | Ok None => forall v x t', c :: name = v ++ x -> v <> [] -> PM items x = Some t' -> last = true /\ t' <> []
+      | _ => False
+      end).
+    { intros Hbad.
+      destruct (starLoop chunk last name) as [[t2|]| | |]; try contradiction.
+      - destruct IH as (v & x & Hn & Hv & Hpm & Hl & Hleft).
+        exists (c :: v), x. split; [rewrite Hn; reflexivity|]. split; [discriminate|]. split; [exact Hpm|]. split; [exact Hl|].
+        intros v' x' t' Hn' Hv' Hlen Hpm'. destruct v' as [|c' v'']; [congruence|]. injection Hn' as _ Hn''.
+        destruct v'' as [|c'' v3].
+        + cbn [app] in Hn''. subst x'. apply Hbad. exact Hpm'.
+        + apply (Hleft (c'' :: v3) x' t'); [exact Hn''|discriminate|cbn [length] in *; lia|exact Hpm'].
+      - intros v x t' Hn Hv Hpm. destruct v as [|c' v'']; [congruence|]. injection Hn as _ Hn''.
+        destruct v'' as [|c'' v3].
+        + cbn [app] in Hn''. subst x. apply Hbad. exact Hpm.
+        + apply (IH (c'' :: v3) x t'); [exact Hn''|discriminate|exact Hpm]. }
+    destruct (PM items name) as [t|] eqn:E.
+    + destruct (last && negb (is_nil t)) eqn:El.
+      * apply Hrec. intros t' Ht. inversion Ht; subst. apply andb_prop in El. destruct El as [E1 E2].
+        split; [exact E1|]. destruct t'; [discriminate|discriminate].
+      * exists [c], name. split; [reflexivity|]. split; [discriminate|]. split; [exact E|]. split.
+        -- intros Hl. rewrite Hl in El. cbn in El. destruct t; [reflexivity|discriminate].
+        -- intros v' x' t' _ Hv' Hlen. destruct v'; [congruence|cbn in Hlen; lia].
+    + apply Hrec. discriminate.
+Qed.
+End StarLoop.
+
+Lemma suffix_align (s a t b t' : bytes) : s = a ++ t -> s = b ++ t' -> (length a <= length b)%nat ->
+  exists w, t = w ++ t'.
+Proof.
+  intros E1 E2 Hl. rewrite E1 in E2. apply app_eq_app in E2. destruct E2 as (l & [[Ea Et]|[Eb Et]]).
+  - assert (l = []) by (destruct l; [reflexivity|rewrite Ea, app_length in Hl; cbn in Hl; lia]). subst. exists []. reflexivity.
+  - exists l. exact Et.
+Qed.
+
+(** the declarative match of [stars items ts'] at offset |u| forces a match of ts' on what the
+    leftmost acceptable offset |v| leaves *)
+Lemma align_forward items ts' last s v x t u s1' t' :
+  no_star items -> plain s ->
+  s = v ++ x -> PM items x = Some t ->
+  (forall v' x' t'', s = v' ++ x' -> (length v' < length v)%nat -> PM items x' = Some t'' -> last = true /\ t'' <> []) ->
+  (last = true -> t = []) ->
+  (last = true /\ ts' = [] \/ last = false /\ exists t2, ts' = TStar :: t2) ->
+  s = u ++ s1' ++ t' -> Matches items s1' -> Matches ts' t' ->
+  Matches ts' t.
+Proof.
+  intros Hn Hp Hs Hpm Hleft Hlast Hend Hs' Hm1 Hm2.
+  assert (Hp' : plain (s1' ++ t')) by (rewrite Hs' in Hp; apply plain_app in Hp; apply Hp).
+  pose proof (PM_plain_complete items s1' t' Hp' Hm1 Hn) as Hpm'.
+  destruct Hend as [[Hl Hts]|[Hl (t2 & Hts)]].
+  - subst ts'. rewrite (Hlast Hl). constructor.
+  - assert (Hle : (length v <= length u)%nat).
+    { destruct (Nat.lt_ge_cases (length u) (length v)) as [Hlt|Hge]; [|exact Hge].
+      destruct (Hleft u (s1' ++ t') t' Hs' Hlt Hpm') as [Hl' _]. congruence. }
+    assert (Hpx : plain x) by (rewrite Hs in Hp; apply plain_app in Hp; apply Hp).
+    destruct (PM_plain_some items Hn x t Hpx Hpm) as (s1 & Hx & Hl1 & _).
+    assert (Hl1' : length s1' = length items).
+    { apply Matches_len; [exact Hn| |exact Hm1]. apply plain_app in Hp'. apply Hp'. }
+    destruct (suffix_align s (v ++ s1) t (u ++ s1') t') as (w & Hw).
+    + rewrite Hs, Hx, app_assoc. reflexivity.
+    + rewrite Hs', app_assoc. reflexivity.
+    + rewrite !app_length. lia.
+    + rewrite Hw, Hts. apply star_absorb; [|rewrite <- Hts; exact Hm2].
+      apply plain_no_sep. rewrite Hx in Hpx. apply plain_app in Hpx. destruct Hpx as [_ Hpt].
+      rewrite Hw in Hpt. apply plain_app in Hpt. apply Hpt.
+Qed.
